@@ -121,6 +121,25 @@ def main(tier: str) -> int:
                             exp = table_d[k][cfg[k]].get(e)
                     if de.get(e) != exp and len(drivers) <= 1:
                         rep.unknown(f"{lang}:independence", f"emitted key {e} under {cfg} is {de.get(e)}, single-option tables predict {exp}: independence assumption violated")
+            # concrete co-simulation with the real compiler (NOT a solver verdict): a translation unit that mixes type headers of two
+            # runs -- support header and the dependency vt.A from one option set, the dependent vt.B (+ vt.sub.C) from another -- must be
+            # rejected whenever the sets differ.  The table model below sees each header's assertions in isolation; this run sees them
+            # through the preprocessor (include order, guards, conditional compilation).
+            mixed = 0
+            for k, vals in opts.items():
+                for v in vals[1:]:
+                    for s_out, t_out, s_cfg, t_cfg in ((bout, single[(k, v)][2], base, dict(base, **{k: v})), (single[(k, v)][2], bout, dict(base, **{k: v}), base)):
+                        compiles, err = _mixed_tu(lang, pathlib.Path(s_out), pathlib.Path(t_out), d)
+                        mixed += 1
+                        if compiles:
+                            rd = common.replay_dir("C17", dict(lang=lang, mixed=(s_cfg, t_cfg)))
+                            (rd / "replay.sh").write_text(f"#!/bin/bash\necho 'support header and vt/A from {s_cfg}, vt/B and vt/sub/C from {t_cfg}: one translation unit compiles'; exit 11\n")
+                            rep.counterexample(f"{lang}:mixed-tu-compiles", f"[{lang}] a translation unit with the support header and vt.A generated with {s_cfg} and vt.B "
+                                               f"generated with {t_cfg} compiles (real compiler)", str(rd), True)
+            compiles, err = _mixed_tu(lang, pathlib.Path(bout), pathlib.Path(bout), d)
+            if not compiles:
+                rep.unknown(f"{lang}:mixed-tu", f"identical option sets do not compile together in the mixed translation unit: {err[-200:]}")
+            rep.extra.setdefault("mixed_translation_units_compiled", {})[lang] = mixed + 1
             # z3 finite-domain model
             S = {k: z3.Int(f"s_{k}") for k in opts}
             Tv = {k: z3.Int(f"t_{k}") for k in opts}
@@ -162,11 +181,31 @@ def main(tier: str) -> int:
     rep.assumptions = ["rendering of each emitted key depends on one option only (spot-validated on seeded multi-option renders)",
                        "free-form string options are limited to their documented defaults (crc32 cannot be injective on all strings)",
                        "the static_assert really fires when the compared numbers differ (compiler semantics, confirmed only in replays)"]
-    rep.not_covered = ["the compiler itself", "types other than vt.A.1.0 (the assertion block does not depend on the type)"]
+    rep.not_covered = ["the compiler itself (the mixed-translation-unit runs are concrete compilations, labelled as such)",
+                       "types other than vt.A.1.0 / vt.B.1.0 (the assertion block does not depend on the type)"]
     rep.extra["explanation"] = ("weak use of a solver, labelled as such: finite-domain SMT over tables extracted from real renders decides, for all pairs of option "
                                 "sets, that a difference in any documented option value makes some emitted assertion false and equal sets make none false")
     rep.extra["trusted_base"] = ["z3", "20-line regex extraction of the two emitted forms", "nnvg from /repo"]
     return rep.write()
+
+
+def _mixed_tu(lang: str, s_out: pathlib.Path, t_out: pathlib.Path, scratch: pathlib.Path) -> typing.Tuple[bool, str]:
+    """support header + vt/A from the render s_out, vt/B + vt/sub/C from the render t_out, one TU that includes vt/B"""
+    import shutil
+    import tempfile
+    ext = "h" if lang == "c" else "hpp"
+    mix = pathlib.Path(tempfile.mkdtemp(prefix="mix_", dir=str(scratch)))
+    try:
+        shutil.copytree(t_out / "vt", mix / "vt")
+        shutil.copytree(s_out / "nunavut", mix / "nunavut")
+        shutil.copy(s_out / "vt" / f"A_1_0.{ext}", mix / "vt" / f"A_1_0.{ext}")
+        tu = mix / ("tu.c" if lang == "c" else "tu.cpp")
+        tu.write_text(f"#include <vt/B_1_0.{ext}>\nint main(void){{return 0;}}\n")
+        p = subprocess.run([("gcc" if lang == "c" else "g++"), ("-std=c11" if lang == "c" else "-std=c++17"), "-fsyntax-only", "-DNUNAVUT_ASSERT(x)=(void)(x)",
+                            "-I", str(mix), str(tu)], stdout=subprocess.PIPE, stderr=subprocess.PIPE, text=True)
+        return p.returncode == 0, p.stderr
+    finally:
+        shutil.rmtree(mix, ignore_errors=True)
 
 
 def _replay(lang: str, s_cfg: dict, t_cfg: dict, expect_compiles: bool) -> typing.Tuple[bool, str, str]:
